@@ -143,6 +143,50 @@ def stream_subst(ctx, n, order, tts, reps):
             M.op('gc', None)
 
 
+def stream_copies(ctx, n, order, tts, aged):
+    """`copy.copy(bdd)` and `bdd.reduction()`: the copy has the same tables; the reduction
+    is a canonical manager whose roots denote the functions of the old roots"""
+    M = Mgr(ctx, f'copies n={n} order={order} aged={aged}', n, order, aged=aged)
+    s = M.s
+    refs = []
+    for t in tts:
+        u = M.build(t)
+        if u is None:
+            continue
+        M.op('incref', u)
+        refs.append((u * ctx.rng.choice([1, -1]), t))
+    refs = [(u, M.tt(u)) for u, _ in refs]
+    M.op('set_roots', [u for u, _ in refs])
+    s.op(1, 'copy_manager', 0)
+    ctx.case(('copies', n, tuple(order), tuple(t for _, t in refs), aged), True)
+    ctx.count('copies')
+    a, c = s.impl.mgr[0], s.impl.mgr[1]
+    if not (a._succ == c._succ and a._pred == c._pred and a._ref == c._ref and a.vars == c.vars
+            and a._min_free == c._min_free and set(a.roots) == set(c.roots)):
+        ctx.violation('C02:copy-differs', 'copy.copy(bdd) does not have the tables of the original', M.case())
+    # the copy is independent: work in it, the original is untouched
+    before = dict(a._succ)
+    if refs:
+        s.op(1, 'apply', 'xor', refs[0][0], refs[-1][0], None)
+    if a._succ != before:
+        ctx.violation('C02:copy-shares', 'work in the copy changed the original', M.case())
+    s.op(2, 'reduction', 0)
+    if not s.ok():
+        ctx.violation('C02:reduction-failed', 'reduction() raised on a consistent manager', M.case())
+        return
+    r = s.impl.mgr[2]
+    bad = oracle.check_table(r)
+    if bad:
+        ctx.violation('C02:reduction-not-canonical', f'{bad[:3]}', M.case())
+    want = sorted(t for _, t in refs)
+    got = sorted(oracle.tt_fast(r, u, [f'v{i}' for i in range(n)]) for u in r.roots)
+    if sorted(set(want)) != got:
+        ctx.violation('C02:reduction-roots', f'roots of the reduction denote {got}, the old roots {want}', M.case())
+    s.op(2, 'assert_consistent')
+    for u, _ in refs:
+        M.op('decref', abs(u))
+
+
 def stream_history(ctx, n, steps):
     rng = ctx.rng
     order = list(range(n))
@@ -288,5 +332,10 @@ def run(ctx):
         stream_subst(ctx, 3, order, sorted(rng.sample(range(256), 6 if q else 64)), 4 if q else 12)
     for order in rng.sample(gen.orders(4), 1 if q else 8):
         stream_subst(ctx, 4, order, [rng.getrandbits(16) for _ in range(3 if q else 24)], 4 if q else 12)
+    for n in (2, 3, 4):
+        for _ in range(3 if q else 30):
+            order = rng.choice(gen.orders(n))
+            stream_copies(ctx, n, order, [rng.getrandbits(1 << n) for _ in range(rng.randint(1, 3))],
+                          aged=rng.random() < 0.5)
     for i in range(6 if q else 40):
         stream_history(ctx, rng.choice([2, 3, 4]), 30 if q else 60)
